@@ -7,6 +7,7 @@ CONSTANTS
   NamedStringValidated = TRUE
   RequiredFileIs422 = TRUE
   ItemFormatValidated = TRUE
+  FormDataFromBodyOnly = TRUE
   Thorough = TRUE
 INVARIANTS Property
 CHECK_DEADLOCK FALSE
